@@ -2,7 +2,7 @@
 
 Settings.tla is the configuration state machine (contract next-state function Apply).  TLC
 (a) enumerates every single payload: every documented key (+ one alias, one unknown key) x
-14 value classes x nested/dotted spelling x with/without the "hledger" wrapper, plus
+18 value classes x nested/dotted spelling x with/without the "hledger" wrapper, plus
 non-object payloads, checking TypeOK, Idempotent and Frame; (b) simulates histories of 4
 payloads with 0..3 entries each.  Every behaviour is replayed on a real server: the first
 payload through initialize (initializationOptions), the others through
@@ -19,9 +19,9 @@ import vf
 MC = "---- MODULE MCSettings ----\nEXTENDS Settings\nAllKeys == Keys\n====\n"
 
 
-def cfg(maxops, rand):
-    return ("CONSTANTS MaxOps = %d  Rand = %s\n KeySet <- AllKeys\nSPECIFICATION Spec\nINVARIANTS TypeOK Idempotent Frame Emit\nCHECK_DEADLOCK FALSE\n"
-            % (maxops, "TRUE" if rand else "FALSE"))
+def cfg(maxops, rand, pairs=False):
+    return ("CONSTANTS MaxOps = %d  Rand = %s  Pairs = %s\n KeySet <- AllKeys\nSPECIFICATION Spec\nINVARIANTS TypeOK Idempotent Frame Emit\nCHECK_DEADLOCK FALSE\n"
+            % (maxops, "TRUE" if rand else "FALSE", "TRUE" if pairs else "FALSE"))
 
 
 def render_payload(p, jsonof):
@@ -57,6 +57,18 @@ def gen(run):
     for c in r.json:
         h0 = {"via": "init", "payload": {"shape": "null", "wrapper": False, "entries": []}, "expect": None, "caps": None}
         out.append(("single-change", {"h": [h0, dict(c["h"][0], via="change")], "json": c["json"]}))
+    # every pair of payloads on the same field: a value that takes the field off its default (6 classes x 2 spellings), then
+    # any of the 18 classes in either spelling -- "falls back to the default" and "leaves the previous value" differ only here.
+    # Half of the pairs start at initialisation, the other half arrive as two changes.
+    r = run.tlc("MCSettings", cfg(2, False, pairs=True), workers=8, timeout=1800, extra_modules={"MCSettings": MC})
+    h0 = {"via": "init", "payload": {"shape": "null", "wrapper": False, "entries": []}, "expect": None, "caps": None}
+    for i, c in enumerate(sorted(r.json, key=lambda c: json.dumps(c["h"], sort_keys=True))):
+        if (i + run.seed) % 2 == 0 and not thorough:
+            out.append(("pair-init", c))
+        else:
+            out.append(("pair-change", {"h": [h0] + [dict(st, via="change") for st in c["h"]], "json": c["json"]}))
+            if thorough:
+                out.append(("pair-init", c))
     for depth, num in ([(4, 500)] if not thorough else [(4, 8000), (6, 3000)]):
         r = run.tlc("MCSettings", cfg(depth, True), mode="simulate", simulate=num, depth=depth + 1, workers=1, timeout=1800,
                     extra_modules={"MCSettings": MC})
@@ -159,7 +171,7 @@ def main(args):
     if sims:
         run.sample({"payloads": [s["payload"] for s in sims[0][1]["steps"]], "expected_final": sims[0][0]["h"][-1]["expect"]})
     run.sample({"payloads": [s["payload"] for s in hcases[7]["steps"]]})
-    run.rule = ("one case per behaviour of Settings.tla: every single payload (26 keys x 14 value classes x nested/dotted x wrapper, + 4 non-object payloads) once through "
+    run.rule = ("one case per behaviour of Settings.tla: every single payload (26 keys x 18 value classes x nested/dotted x wrapper, + 4 non-object payloads) once through "
                 "initialize and once through didChangeConfiguration, and simulated histories of 4..6 payloads with 0..3 entries; non-trivial = some object payload with an entry")
     run.assumptions = ["payloads reach the server as encoding/json decodes them (numbers are float64), as over the wire",
                        "fractional and non-representable numbers are not generated (the statement does not fix them)",
